@@ -329,7 +329,11 @@ impl LuaIndexExpr {
                             }
                         }
 
-                        return Some(LuaIndexKey::Expr(LuaExpr::cast(node).unwrap()));
+                        // a comment between `[` and the key is a node as well: skip what is not an expression
+                        match LuaExpr::cast(node) {
+                            Some(expr) => return Some(LuaIndexKey::Expr(expr)),
+                            None => continue,
+                        }
                     }
                     _ => {
                         if let Some(token) = child.as_token()
